@@ -1,4 +1,4 @@
-import argparse, importlib, os, sys, traceback
+import argparse, importlib, json, os, sys, traceback
 ap = argparse.ArgumentParser()
 ap.add_argument("pid")
 ap.add_argument("--tier", default=os.environ.get("VERIF_TIER", "quick"))
@@ -8,4 +8,22 @@ seed = int(os.environ.get("VERIF_SEED", "20260930"))
 mod = importlib.import_module(a.pid.lower())
 if a.replay:
     sys.exit(mod.replay(a.replay))
-sys.exit(mod.main(a.tier, seed))
+try:
+    rc = mod.main(a.tier, seed)
+except SystemExit:
+    raise
+except BaseException:   # noqa
+    # The implementation (or the harness driving it) raised where the unchanged tree never does: the correspondence of
+    # this property could not be completed. That is reported like any other obligation that no longer checks.
+    import common
+    tb = traceback.format_exc()
+    d = os.path.join(common.BUILD, "replay")
+    os.makedirs(d, exist_ok=True)
+    path = os.path.join(d, "%s_correspondence_aborted.json" % a.pid.upper())
+    json.dump(dict(property=a.pid.upper(), broken=[dict(name="correspondence run of %s (tier %s, seed %d) aborted by an exception" % (a.pid.upper(), a.tier, seed),
+                                                     detail=tb[-4000:])],
+                   note="no concrete failing input isolated: the run aborted before the search finished"), open(path, "w"), indent=1)
+    sys.stderr.write(tb)
+    print("VIOLATION property=%s replay=%s no-failing-input-found" % (a.pid.upper(), path))
+    rc = 1
+sys.exit(rc)
